@@ -202,6 +202,20 @@ func (r *Recorder) onOpReturned(op *ClientOp) {
 			inc := op.Inc
 			leaseNs := int64(r.c.Cfg.LeaseMs) * 1_000_000
 			r.probe("lease-read-checked-against-voter-reply")
+			// C17(d): leases and terms of leadership never overlap. Under L + D < E a voter that
+			// answered the round which renewed the lease refuses its vote until the lease has
+			// run out, so no leader of a later term exists before the lease ends: a lease read
+			// invoked after a leader of a later term was already observed is served on a lease
+			// that must have lapsed (the new leader may acknowledge writes at any moment).
+			if inc.haveStatus {
+				for _, ls := range r.leaderFirstSeen {
+					if ls.Term > inc.lastStatus.Term && ls.Ns < op.InvokeNs {
+						r.violate("C17", "lease-read-under-newer-leader", "lease-outlives-term", "op%d lease read invoked at %.3fms and served by %s in term %d, but %s had become leader of term %d at %.3fms",
+							op.ID, float64(op.InvokeNs)/1e6, inc.Name(), inc.lastStatus.Term, ls.Inc.Name(), ls.Term, float64(ls.Ns)/1e6)
+						break
+					}
+				}
+			}
 			if inc.lastVoterReplyNs == 0 || inc.lastVoterReplyNs <= op.InvokeNs-leaseNs {
 				r.violate("C17", "lease-not-backed-by-voter", "no-recent-voter-reply", "op%d lease read served by %s between %.3fms and %.3fms, but the last AppendEntries reply from a voter reached it at %.3fms (lease duration %dms)",
 					op.ID, inc.Name(), float64(op.InvokeNs)/1e6, float64(op.ReturnNs)/1e6, float64(inc.lastVoterReplyNs)/1e6, r.c.Cfg.LeaseMs)
